@@ -22,11 +22,11 @@ COMPONENTS = {
 }
 RULE = (
     "one run = one generator call (swarm concentrated on constrained arguments: accessible_cells count/fraction, max_tree_depth, do_forks, "
-    "randomized_stack, start_coord incl. last row/column, p) followed by get_connected_component and generate_random_path under the same RNG "
-    "schedule; distinct = distinct (spec, output array, metadata) digests; non-trivial = >= 2 cells and at least one non-default argument"
+    "randomized_stack, start_coord incl. last row/column, p) followed by get_connected_component and generate_random_path (plain, and in every second run also "
+    "restricted by explicit candidate lists / dead-end / distinct-endpoint arguments dealt from the whole grid) under the same RNG schedule; distinct = distinct (spec, output array, metadata) digests; non-trivial = >= 2 cells and at least one non-default argument"
 )
 LEVEL_TEXT = (
-    "Seeded search over generator arguments and the generator's own random choices (owned RNG with adversarial per-site policies, plus real seeded twins); the recorded metadata is compared with a union-find/BFS reachability model of the returned array, and endpoint sampling is run under the same schedule. Arguments are also varied in how the caller spells them (shape as narrow-typed array / list / tuple, start cell as a caller-owned buffer overwritten after the call), grids include sides beyond 128 cells, and a violating run is reported together with the runs that preceded it in its process. Sampling, not proof.",
+    "Seeded search over generator arguments and the generator's own random choices (owned RNG with adversarial per-site policies, plus real seeded twins); the recorded metadata is compared with a union-find/BFS reachability model of the returned array, and endpoint sampling is run under the same schedule, both unrestricted and restricted by caller-supplied candidate lists (cells inside and outside the recorded component), dead-end and distinct-endpoint arguments. Arguments are also varied in how the caller spells them (shape as narrow-typed array / list / tuple, start cell as a caller-owned buffer overwritten after the call), grids include sides beyond 128 cells, and a violating run is reported together with the runs that preceded it in its process. Sampling, not proof.",
     "Trusted: NumPy, the SimRNG model of the RNG entry points (values checked against the API's support; real-RNG twin in every batch).",
 )
 
@@ -36,8 +36,38 @@ def gen_specs(rng: random.Random, tier: str, n: int) -> list[dict]:
     for i in range(n):
         seed = rng.getrandbits(48)
         big = (tier == "thorough" and i % 400 == 0) or i % 100 == 57  # 16..20-cell sides: 128+ cells
-        specs.append(_gen.gen_spec(rng, seed, 7 if tier == "quick" else 12, constrained_bias=0.85, big=big, long=(i % 100 == 7)))
+        spec = _gen.gen_spec(rng, seed, 7 if tier == "quick" else 12, constrained_bias=0.85, big=big, long=(i % 100 == 7))
+        r, c = spec["shape"]
+        if r > 1 and c > 1 and i % 2 == 1:
+            spec["path_kwargs"] = gen_path_kwargs(rng, r, c, force_lists=(i % 8 == 3))
+        specs.append(spec)
     return specs
+
+
+def gen_path_kwargs(rng: random.Random, r: int, c: int, force_lists: bool = False) -> dict:
+    """arguments of the endpoint draw (the consequence clause speaks of *drawn endpoints*, however the caller restricts the
+    draw): explicit candidate lists are dealt from the whole grid, so on a constrained maze they mix cells inside and outside
+    the recorded component, incl. cells sharing a row or a column with it"""
+    pk: dict = {}
+
+    def cells():
+        k = rng.choice([1, 2, 3, 4, 6, 10])
+        return [[rng.randrange(r), rng.randrange(c)] for _ in range(k)]
+
+    if force_lists or rng.random() < 0.55:
+        pk["allowed_start"] = cells()
+    if force_lists or rng.random() < 0.55:
+        pk["allowed_end"] = cells()
+    if rng.random() < 0.25:
+        pk["deadend_start"] = True
+    if rng.random() < 0.25:
+        pk["deadend_end"] = True
+    if rng.random() < 0.3:
+        pk["endpoints_not_equal"] = True
+    if not pk:
+        pk["deadend_end"] = True
+    pk["lists_as"] = rng.choice(["list", "tuples"])  # (arrays are not accepted by the unchanged tree: the argument is typed as a list of coordinates)
+    return pk
 
 
 def _cells(v) -> set | None:
@@ -51,18 +81,29 @@ def _cells(v) -> set | None:
     return {(int(a), int(b)) for a, b in arr.reshape(-1, 2)}
 
 
-def _after(maze):
+def _after(maze, path_kwargs=None):
     "consequence clause, executed under the same RNG schedule as the generator"
     comp = maze.get_connected_component()
     path = None
     err = None
+    restricted = None
     r, c = maze.connection_list.shape[1:]
     if r > 1 and c > 1:
         try:
             path = maze.generate_random_path()
         except Exception as e:  # noqa: BLE001
             err = e
-    return comp, path, err
+        if path_kwargs:
+            pk = {k: v for k, v in path_kwargs.items() if k != "lists_as"}
+            for k in ("allowed_start", "allowed_end"):
+                if k in pk:
+                    if path_kwargs.get("lists_as") == "tuples":
+                        pk[k] = [tuple(x) for x in pk[k]]
+            try:
+                restricted = ("path", maze.generate_random_path(**pk))
+            except Exception as e:  # noqa: BLE001
+                restricted = ("err", e)
+    return comp, path, err, restricted
 
 
 def judge(spec: dict, out: _gen.GenOutcome, log: core.EventLog, stats: dict):
@@ -137,7 +178,7 @@ def judge(spec: dict, out: _gen.GenOutcome, log: core.EventLog, stats: dict):
     if out.extra_exc is not None:
         raise core.Violation("C12.connected-component-raised", f"{where}: get_connected_component raised {out.extra_exc!r}")
     if out.extra is not None:
-        comp, path, err = out.extra
+        comp, path, err, restricted = out.extra
         compset = _cells(comp)
         expect = {(i, j) for i in range(r) for j in range(c)} if fc else graph.component_of(conn, s)
         if compset != expect:
@@ -156,12 +197,30 @@ def judge(spec: dict, out: _gen.GenOutcome, log: core.EventLog, stats: dict):
             if graph.path_errors(conn, p):
                 raise core.Violation("C12.endpoints-unreachable", f"{where}: returned path invalid: {graph.path_errors(conn, p)}")
             stats["probe_random_path_drawn"] = 1
+        if restricted is not None:
+            pk = spec.get("path_kwargs")
+            kind, val = restricted
+            if kind == "err":
+                msg = " ".join(str(a) for a in val.args)[:200]
+                if isinstance(val, ValueError) and "could not be found" in msg:
+                    raise core.Violation("C12.endpoints-unreachable", f"{where}: endpoints drawn with {pk} are not mutually reachable: {msg[:120]}")
+                stats["restricted_path_err_" + type(val).__name__ + ":" + msg[:40]] = 1
+            else:
+                p = np.asarray(val)
+                a, b = (int(p[0][0]), int(p[0][1])), (int(p[-1][0]), int(p[-1][1]))
+                if b not in graph.component_of(conn, a):
+                    raise core.Violation("C12.endpoints-unreachable", f"{where}: path drawn with {pk} joins {a} and {b} which are not connected")
+                if graph.path_errors(conn, p):
+                    raise core.Violation("C12.endpoints-unreachable", f"{where}: path drawn with {pk} is invalid: {graph.path_errors(conn, p)}")
+                stats["probe_restricted_path_drawn"] = 1
+                if len(comps) > 1 and any(k in pk for k in ("allowed_start", "allowed_end")):
+                    stats["probe_restricted_path_on_partial_maze"] = 1
 
 
 def run_one(spec: dict) -> dict:
     log = core.EventLog()
-    _gen.run_history_prefix(spec, log)
-    out = _gen.execute(spec, log, extra=_after)
+    _gen.run_history_prefix(spec, log, extra_for=lambda h: (lambda maze: _after(maze, h.get("path_kwargs"))))
+    out = _gen.execute(spec, log, extra=lambda maze: _after(maze, spec.get("path_kwargs")))
     extra = {"draws": out.sim.draws if out.sim is not None else None}
     stats = dict(out.sim.stats()) if out.sim is not None else {}
     stats["mode_" + spec["mode"]] = 1
@@ -187,7 +246,18 @@ def run(spec: dict, ctx) -> dict:
 
 
 def shrink(spec: dict, result: dict):
-    return _gen.shrink_candidates(spec, result)
+    pk = spec.get("path_kwargs")
+    if pk:
+        for k in list(pk):
+            if k != "lists_as":
+                yield dict(spec, path_kwargs={kk: vv for kk, vv in pk.items() if kk != k})
+        for k in ("allowed_start", "allowed_end"):
+            if k in pk and len(pk[k]) > 1:
+                for j in range(len(pk[k])):
+                    yield dict(spec, path_kwargs=dict(pk, **{k: pk[k][:j] + pk[k][j + 1 :]}))
+        if pk.get("lists_as") != "list":
+            yield dict(spec, path_kwargs=dict(pk, lists_as="list"))
+    yield from _gen.shrink_candidates(spec, result)
 
 
 def sample_of(spec: dict, result: dict):
